@@ -286,6 +286,135 @@ class Ctx(object):
                 res.append(s)
         return res
 
+    # ---- context-sensitive evaluation of parameter-relative sites ----
+    def _site_targets(self, site):
+        if site.kind == "call":
+            return [t for t, how in self.prog.call_targets(site) if how != "extern-cb"]
+        return [d[1] for d in self.prog.drop_targets(site.term["ty"]) if d[0] == "local"]
+
+    def _inner_before(self, rel_of, tgt, ev, depth):
+        """For every occurrence of the parameter-relative event `ev` inside `tgt` (directly or in deeper callees):
+        the set of events (in tgt's terms) that rel_of says happened between tgt's entry and that occurrence."""
+        res = []
+        for t in tgt.sites():
+            rel = rel_of(tgt, t.bb)
+            if rel is None:
+                continue
+            if ev in self.raw_events_at(t):
+                res.append(frozenset(rel))
+            if depth >= 4:
+                continue
+            for tgt2 in self._site_targets(t):
+                for ev2 in self._param_events(tgt2):
+                    if self._subst(ev2, t, tgt2) != ev:
+                        continue
+                    for inner in self._inner_before(rel_of, tgt2, ev2, depth + 1):
+                        up = set(rel)
+                        for e in inner:
+                            x = self._subst(e, t, tgt2)
+                            if x is not None:
+                                up.add(x)
+                        res.append(frozenset(up))
+        return res
+
+    def _inner_chains(self, tgt, ev, depth):
+        res = []
+        for t in tgt.sites():
+            if ev in self.raw_events_at(t):
+                res.append([t])
+            if depth >= 4:
+                continue
+            for tgt2 in self._site_targets(t):
+                for ev2 in self._param_events(tgt2):
+                    if self._subst(ev2, t, tgt2) == ev:
+                        for c in self._inner_chains(tgt2, ev2, depth + 1):
+                            res.append([t] + c)
+        return res
+
+    def sem_chains(self, name):
+        """Like sem_sites, but every occurrence comes with its call chain: [site where the event's class becomes
+        concrete, ..., the extern effect site].  A rule that needs "the frame that owns X" picks it from the chain."""
+        out = []
+        for site in self.sem_sites(name):
+            direct = any(self._concrete(raw) and name in sem(raw) for raw in self.raw_events_at(site)) or \
+                any(name in sem(("CONT", cu.field, cu.method, cu.mutable))
+                    for cu in self._cont_by_site.get(site.key(), ()))
+            if direct:
+                out.append([site])
+            for tgt in self._site_targets(site):
+                for ev in self._param_events(tgt):
+                    inst = self._subst(ev, site, tgt)
+                    if inst is None or not self._concrete(inst) or name not in sem(inst):
+                        continue
+                    for c in self._inner_chains(tgt, ev, 1):
+                        out.append([site] + c)
+        seen = set()
+        res = []
+        for c in out:
+            k = tuple(x.key() for x in c)
+            if k not in seen:
+                seen.add(k)
+                res.append(c)
+        return res
+
+    def deepest_frame(self, chain, pred):
+        """The innermost frame of the chain whose body satisfies pred; the outermost frame if none does."""
+        for s in reversed(chain):
+            if pred(s.body):
+                return s
+        return chain[0]
+
+    def before_sets(self, site, name, base, rel_of):
+        """Event sets holding before each occurrence of semantic event `name` at `site`.  For a plain effect site that
+        is `base` itself; for a call site that instantiates a parameter-relative event of its callee, one set per
+        occurrence inside the callee: base plus what happened inside the callee before it, instantiated here."""
+        out = []
+        direct = False
+        for raw in self.raw_events_at(site):
+            if self._concrete(raw) and name in sem(raw):
+                direct = True
+        for cu in self._cont_by_site.get(site.key(), ()):
+            if name in sem(("CONT", cu.field, cu.method, cu.mutable)):
+                direct = True
+        if direct:
+            out.append(frozenset(base))
+        for tgt in self._site_targets(site):
+            for ev in self._param_events(tgt):
+                inst = self._subst(ev, site, tgt)
+                if inst is None or not self._concrete(inst) or name not in sem(inst):
+                    continue
+                for inner in self._inner_before(rel_of, tgt, ev, 1):
+                    up = set(base)
+                    for e in inner:
+                        x = self._subst(e, site, tgt)
+                        if x is not None:
+                            up.add(x)
+                    out.append(frozenset(up))
+        if not out:
+            out.append(frozenset(base))
+        return out
+
+    def must_before(self, must, ENTRY, site, name):
+        """List of must-happened-before sets, one per occurrence of `name` at/under `site`; None if unreachable."""
+        base = must.at_site(ENTRY, site)
+        if base is None:
+            return None
+
+        def rel_of(body, bb):
+            must.summarize(body)
+            r = must.rel_in.get(body.path, {}).get(bb, flow.ALL)
+            return None if r is flow.ALL else r
+        return self.before_sets(site, name, base, rel_of)
+
+    def may_before(self, ENTRY_may, site, name):
+        base = self.may.before_site(ENTRY_may, site)
+        if base is None:
+            return None
+
+        def rel_of(body, bb):
+            return self.may.solve_body(body).get(bb)
+        return self.before_sets(site, name, base, rel_of)
+
     def _param_events(self, body):
         """Parameter-relative raw events that occur in body or its callees."""
         return [e for e in self.may.all_events(body.path) if not self._concrete(e)]
